@@ -245,3 +245,48 @@ pub fn apply_color_indexing_transform(
         image_data, width, height, table_size, table_data,
     )
 }
+
+/// One request to the boolean entropy decoder (C15).
+#[derive(Clone, Copy, Debug, PartialEq, Eq)]
+pub enum ArithOp {
+    /// `read_bool(probability)`
+    Bool(u8),
+    /// `read_flag()`
+    Flag,
+    /// `read_literal(n)`
+    Literal(u8),
+    /// `read_optional_signed_value(n)`
+    Signed(u8),
+    /// `read_with_tree` on tree number `k` (see `vp8::verif_read_tree`)
+    Tree(usize),
+}
+
+/// Builds an `ArithmeticDecoder` over `data` exactly as `vp8.rs` does for a partition (zero-padded 4-byte chunks
+/// plus the length), runs the requests through the crate-internal `read_*` methods and returns the values
+/// (as `i32`) together with whether the final `check` reports exhaustion.
+pub fn arith_script(data: &[u8], ops: &[ArithOp]) -> (Vec<i32>, bool) {
+    use crate::vp8_arithmetic_decoder::ArithmeticDecoder;
+    let size = data.len();
+    let mut buf = vec![[0u8; 4]; (size + 3) / 4];
+    buf.as_mut_slice().as_flattened_mut()[..size].copy_from_slice(data);
+    let mut d = ArithmeticDecoder::new();
+    d.init(buf, size).expect("init");
+    let mut res = d.start_accumulated_result();
+    let mut out = Vec::with_capacity(ops.len());
+    for op in ops {
+        let v = match *op {
+            ArithOp::Bool(p) => i32::from(d.read_bool(p).or_accumulate(&mut res)),
+            ArithOp::Flag => i32::from(d.read_flag().or_accumulate(&mut res)),
+            ArithOp::Literal(n) => i32::from(d.read_literal(n).or_accumulate(&mut res)),
+            ArithOp::Signed(n) => d.read_optional_signed_value(n).or_accumulate(&mut res),
+            ArithOp::Tree(k) => i32::from(
+                crate::vp8::verif_read_tree(&mut d, k)
+                    .expect("tree number")
+                    .or_accumulate(&mut res),
+            ),
+        };
+        out.push(v);
+    }
+    let eof = d.check(res, ()).is_err();
+    (out, eof)
+}
